@@ -42,6 +42,8 @@ def gen_batch(r, bi, services=False, can=False, n_random=(6, 9), out_of_order=Tr
     # field names with leading, trailing and doubled underscores (legal identifiers; name-case helpers see
     # empty words)
     add(p + "Under", [("class_", 0, ("u", 6)), ("_reserved", 1, ("i", 5)), ("torque__nm", 2, ("u", 13)), ("_", 3, ("u", 1))])
+    # two fields sharing a field id (accepted by the front end): both travel, in declaration order among equals
+    add(p + "DupId", [("t", 0, ("u", 8)), ("temp", 1, ("i", 8)), ("temp_raw", 1, ("u", 16)), ("z", 2, ("u", 8))])
     add(p + "Nest", [("x", 0, ("u", 2)), ("n", 1, ("struct", p + "In")), ("m", 2, ("arr", ("struct", p + "In"), 2)), ("y", 3, ("i", 9))])
     add(p + "Cont", [
         ("a", 0, ("arr", ("u", r.choice([3, 8, 12])), 3)),
@@ -85,7 +87,7 @@ def gen_batch(r, bi, services=False, can=False, n_random=(6, 9), out_of_order=Tr
             ids = sorted(ids)
         # (the 65 k element struct is not offered as a building block: nested in containers it makes single
         # commands of several megabytes)
-        fields = [("f%d" % j, fid, shapes.rand_type(r, enums, [x for x in structs if x != p + "Long"], 0, 3, True)) for j, fid in enumerate(ids)]
+        fields = [("f%d" % j, fid, shapes.rand_type(r, enums, [x for x in structs if x not in (p + "Long", p + "DupId")], 0, 3, True)) for j, fid in enumerate(ids)]
         add(n, fields)
     # a NEGATIVE field id (the front end accepts it): it sorts first; all leaves are whole bytes.  Declared after
     # the random structs so that it is neither a building block nor among the first CAN-bound structs.
